@@ -270,6 +270,8 @@ def run_scripts(scripts, workdir, tag="run"):
     impl = run_impl(lines, workdir, tag)
     mobs, spec = run_model(lines, impl, workdir, tag)
     for i, o in enumerate(impl):
+        if " alloc=big:" in o:
+            spec[i] = "FAIL C16 a decoder requested an oversized allocation on this input (%s bytes)" % o.split(" alloc=big:")[1].split(" ")[0]
         if o == "hang":
             spec[i] = "FAIL the implementation did not return from this operation within %d s (hang)" % STALL_S
     res = []
